@@ -103,6 +103,13 @@ def specStep (a : ASt) (op : Op) : ASt × Out :=
     match a.tabs[i]? with
     | some t => aRet a (match t.map (fold k) with | some v => .val v | none => .none)
     | none => (a, .bad)
+  | .getd i k d =>
+    match a.tabs[i]? with
+    | some t =>
+      match t.map (fold k) with
+      | some v => aRet a (.val v)       -- the default is returned ONLY when the name is not declared
+      | none => (a, .dflt d)
+    | none => (a, .bad)
   | .getitem i k =>
     match a.tabs[i]? with
     | some t =>
@@ -138,6 +145,13 @@ def specStep (a : ASt) (op : Op) : ASt × Out :=
       match t.map (fold k) with
       | some v => aRet (aSetMap a i t (t.map.del (fold k))) (.val v)
       | none => (a, .none)
+    | none => (a, .bad)
+  | .popdv i k d =>
+    match a.tabs[i]? with
+    | some t =>
+      match t.map (fold k) with
+      | some v => aRet (aSetMap a i t (t.map.del (fold k))) (.val v)
+      | none => (a, .dflt d)
     | none => (a, .bad)
   | .clone i pk =>
     match a.tabs[i]? with
@@ -217,6 +231,7 @@ def dspecStep (kind : DKind) (m : AMap) (op : DOp) : AMap × Out :=
   match op with
   | .set k v => (m.upd (lower k) v, .unit)
   | .get k => (m, match m (lower k) with | some v => .val v | none => .none)
+  | .getd k dv => (m, match m (lower k) with | some v => .val v | none => .val dv)
   | .getitem k =>
     match m (lower k) with
     | some v => (m, .val v)
@@ -233,6 +248,9 @@ def dspecStep (kind : DKind) (m : AMap) (op : DOp) : AMap × Out :=
   | .popd k => match m (lower k) with
     | some v => (m.del (lower k), .val v)
     | none => (m, .none)
+  | .popdv k dv => match m (lower k) with
+    | some v => (m.del (lower k), .val v)
+    | none => (m, .val dv)
   | .setdefault k v => match m (lower k) with
     | some w => (m, .val w)
     | none => (m.upd (lower k) v, .val v)
